@@ -2,7 +2,8 @@
 import random
 import common as C
 import gen as G
-import codec, targets, cont
+import codec, targets, cont, ocf
+import directed as D
 import containercodec
 
 MODEL_TARGETS = ["model/De.vo", "model/Reader.vo", "model/ContainerCodec.vo", "model/ContainerReplay.vo"]
@@ -10,6 +11,7 @@ COQ_TARGETS = ["props/C11.vo", "proofs/ConstsTie.vo", "proofs/DeDispatchTie.vo"]
 THEOREMS = [("C11", ["C11_varint", "C11_de", "C11_datum", "C11_container", "C11_compressed_file_chunk_independent", "C11_container_cap_per_value"])]
 PROOF_FILES = ["proofs/ReaderProofs.v", "proofs/VarintProofs.v", "props/C11.v", "proofs/ContainerChunkProofs.v", "proofs/ContainerReadProofs.v", "proofs/DecodeLoopProofs.v", "proofs/ContainerCodecProofs.v", "proofs/DeClosure.v", "proofs/ContainerLimitsProofs.v"]
 TRUSTED_BASE = [
+    "lib/ocf.py (Python): null-codec container files written by hand with blocks of chosen byte sizes; single-object messages are built by the model's encoder (`sos` of ocaml/avromodel)",
     "Coq 8.16.1 kernel; no axioms (Print Assumptions: closed)",
     "hand-written model/Reader.v of de/read/mod.rs (SliceRead; ReaderRead over a BufRead whose fill_buf follows a chunk plan; the byte-wise varint gathering path), model/De.v, model/Varint.v of integer-encoding 4.1.0; tied by the correspondence run under every chunk size",
     "hand-written model/ContainerCodec.v (ccr_file: the reader of WHOLE files with compressed blocks -- cr_open, then per block count / size varints, negative checks, block_open / block_run of DecodeLoop.v or snappy_run, end-of-block check, sync marker, the chunk plan threaded through the blocks), tied to the crate by running the extracted function on every compressed file the run reads through `crt` (lib/containercodec.py, OCaml command `ccr`): same bytes, same kind of source (slice / the same chunk plan), the value decoder cc_vdec for the schema text of the header (Python json -> AST -> Parse.parse_schema), the codec named in the header, and a REPLAY streaming decoder (model/ContainerReplay.v) that answers from the reads hook H4 recorded for each block (bytes produced or Err, compressed bytes consumed = difference of the Take limits; a block finds its reads by the bytes its Take holds and the chunk-plan state at its first byte); compared: schema text, user metadata, the values before the first error (borrows erased), the way the run ends (end of stream; class of the first error: negative count/size, block cannot be opened, decoder Err / decompressed data left / Take not exhausted in the end check, sync mismatch, other = value error | unreadable count/size | short marker), under both extreme read policies (every refill a fill_buf; every refill of >= capacity outstanding bytes a bypassing read). TRUSTED in this tie: hook H4 records lengths only -- the BYTES of each read are the block's data decoded by the compression library on its own (harness `decode`, cross-checked against Python's zlib / bz2 / lzma on complete streams) sliced by the produced counts; snap::raw and CRC32 enter as tables (harness `decode snappy`, zlib.crc32); the runner's own walk of the file layout (block offsets for the replay keys). NOT tied by it: the request sizes on the model's real path (policy parameter; the end check's request is tied by `decend`), message texts, the per-call pretend_eof logic after the first error, runs too long for the list-based model (skipped and counted in coverage.notes), null-codec files (Container.cr_run). One tolerance (coverage.notes ... read_ahead): a decoder Err that reaches the crate's deserializer inside a value whose bytes were all out (read_slice calls fill_buf first, also for 0 bytes) fails that value in the crate; the model delivers it and meets the same Err afterwards",
@@ -125,13 +127,107 @@ def run(ctx):
                     violations.append({"impl_case": clines[i][:3000], "what": "container input (%s): a chunked reader and the slice disagree" % c,
                                        "slice": cres[a][:300], "reader": cres[i][:300]})
                     break
+    # container files written by hand (null codec) whose blocks differ in size: a small block (1..3 bytes, or several zero-byte
+    # datums: 0 bytes) before / between / after blocks holding strings, bytes and fixed values longer than that block, read
+    # through sources of every small refill size (the values straddle refills: the reader's scratch path); the container
+    # model (Container.v reader) on the same lines
+    hlines, hgroups, hsch = [], [], []
+    fx = ("fixed-rec", b'{"type":"record","name":"R","fields":[{"name":"f","type":{"type":"fixed","name":"F","size":24}},{"name":"s","type":"string"}]}',
+          [G.Node("record", name="R", fields=[("f", 1), ("s", 2)]), G.Node("fixed", name="F", size=24), G.Node("string")], None, False)
+    for rep in range(3 if ctx["tier"] == "quick" else 40):
+        for lab, js, nodes, enc1, var_len in ocf.SCHEMAS + [fx]:
+            def datum(nlen):
+                body = bytes(0x61 + rng.randrange(26) for _ in range(nlen))
+                if lab == "fixed-rec":
+                    return bytes(rng.randrange(256) for _ in range(24)) + G.varint(nlen) + body
+                return enc1(nlen, body)
+            shape = rng.choice(["small-first", "small-first", "small-middle", "shrinking", "growing"])
+            sizes = {"small-first": [[rng.choice([0, 1])], [rng.choice([5, 18, 40]), 3], [rng.choice([2, 70])]],
+                     "small-middle": [[30, 2], [0], [rng.choice([9, 33])], [1], [12]],
+                     "shrinking": [[50], [20], [6], [1], [17]],
+                     "growing": [[0], [2], [7], [30], [130]]}[shape]
+            blocks = [[datum(x) for x in b] for b in sizes]
+            if lab == "union" and rng.random() < 0.7:
+                blocks[0] = [G.varint(0)] * rng.randint(1, 3)          # null branch: one byte each
+            f = ocf.file(js, blocks)
+            total = sum(len(b) for b in blocks)
+            start = len(hlines)
+            for pl in ["slice"] + ["(chunks %d)" % k for k in (1, 2, 3, 5, 7, 16, 64, 8192)] + ["(chunks %d %d %d)" % (rng.randint(1, 5), rng.randint(1, 50), rng.randint(1, 5))]:
+                hlines.append("cr %s %s any %d" % (C.hx(f), pl, total + 3))
+                hsch.append(G.schema_sx(nodes))
+            hgroups.append((start, len(hlines), "null, hand-written blocks (%s, %s)" % (lab, shape)))
+    # files of zero-byte datums: every block has byte size 0
+    for nodes, v in D.zero_byte_cases():
+        js = C.run_lines(C.AVROMODEL, ["tojson " + G.schema_sx(nodes)])[0]
+        pj = C.parse_sx(js)
+        if not pj or pj[0][0] != "ok":
+            continue
+        f = ocf.file(C.unhex(pj[0][1]), [[b""] * 2, [b""], [b""] * 3])
+        start = len(hlines)
+        for pl in ["slice"] + ["(chunks %d)" % k for k in (1, 2, 3, 7, 64)]:
+            hlines.append("cr %s %s any 9" % (C.hx(f), pl))
+            hsch.append(G.schema_sx(nodes))
+        hgroups.append((start, len(hlines), "null, zero-byte datums"))
+    hres = C.run_parallel(C.AVRODRIVE, hlines)
+    hmod = C.run_parallel(C.AVROMODEL, ["%s %s" % (l, s) for l, s in zip(hlines, hsch)])
+    for a, b, c in hgroups:
+        base = ckey(hres[a])
+        if base != ckey(hmod[a]) and "(unmodelled)" not in hmod[a]:
+            diffs.append({"impl_case": hlines[a][:3000], "model_case": ("%s %s" % (hlines[a], hsch[a]))[:3000], "impl": hres[a][:400], "model": hmod[a][:400]})
+        if any(x[0] != "ok" for x in base[:-2]) or len(base) < 3:
+            violations.append({"impl_case": hlines[a][:3000], "what": "container input (%s): the slice reader did not yield every value of a valid file" % c, "impl": hres[a][:400]})
+        for i in range(a + 1, b):
+            if ckey(hres[i]) != ckey(hmod[i]) and "(unmodelled)" not in hmod[i]:
+                diffs.append({"impl_case": hlines[i][:3000], "model_case": ("%s %s" % (hlines[i], hsch[i]))[:3000], "impl": hres[i][:400], "model": hmod[i][:400]})
+            if ckey(hres[i]) != base:
+                violations.append({"impl_case": hlines[i][:3000], "what": "container input (%s): a chunked reader and the slice disagree" % c,
+                                   "slice": hres[a][:300], "reader": hres[i][:300]})
+                break
+    # single-object input: messages (header from the MODEL's encoder) incl. zero-byte datums -- the message is exactly the 10
+    # header bytes --, followed by other data, cut at every length 0..12 and beyond: slice vs every refill size
+    so_pairs = D.zero_byte_cases() + [(s["nodes"], s["evalue"]) for s in sp[:40 if ctx["tier"] == "quick" else 2000]]
+    so_sp = codec.spec_batch(so_pairs)
+    so_msgs = C.run_parallel(C.AVROMODEL, ["sos %s %s" % (s["schema"], s["present"]) for s in so_sp])
+    slines, sgroups = [], []
+    for s, rmsg in zip(so_sp, so_msgs):
+        pm = C.parse_sx(rmsg)
+        if not pm or pm[0][0] != "ok":
+            continue
+        msg = C.unhex(pm[0][1])
+        variants = [msg, msg + G.rand_bytes(rng, rng.randint(1, 4)), msg[:10]] + [msg[:k] for k in sorted(set([0, 1, 2, 9, rng.randrange(0, len(msg) + 1)]))]
+        g = bytearray(msg); g[rng.randrange(10)] ^= 0x40; variants.append(bytes(g))
+        for data in variants:
+            tg = rng.choice(["any", s["ttarget"], "ignored"])
+            start = len(slines)
+            for pl in ["slice"] + ["(chunks %d)" % k for k in range(1, min(len(data), 13) + 1)] + ["(chunks %d %d)" % (rng.randint(1, 9), rng.randint(1, 9)), "(chunks 64)"]:
+                slines.append("sod %s %s %s %s" % (s["schema"], tg, C.hx(data), pl))
+            sgroups.append((start, len(slines), data == msg))
+    sres = C.run_parallel(C.AVRODRIVE, slines)
+    smod = C.run_parallel(C.AVROMODEL, slines)
+    for a, b, valid in sgroups:
+        base = key(sres[a])
+        for i in range(a, b):
+            if not C.same_outcome(sres[i], smod[i]):
+                diffs.append(codec.diff_entry(slines[i], sres[i], smod[i]))
+        if valid and base == "(err)":
+            violations.append({"impl_case": slines[a], "what": "single-object input: a complete message (header + datum, nothing else) was rejected from the slice", "impl": sres[a][:300]})
+        for i in range(a + 1, b):
+            if key(sres[i]) != base:
+                violations.append({"impl_case": slines[i], "what": "single-object input: a chunked reader and the slice disagree",
+                                   "slice_case": slines[a], "slice": sres[a][:300], "reader": sres[i][:300]})
+                break
     samples = [{"case": lines[g[0] + 1][:200]} for g in groups[:4]]
     diffs.extend(wf["diffs"])
-    return {"evaluations": len(lines) + len(clines) + wf["evaluations"], "distinct_nontrivial": len(distinct) + len(cgroups),
+    return {"evaluations": len(lines) + len(clines) + len(hlines) + len(slines) + wf["evaluations"], "distinct_nontrivial": len(distinct) + len(cgroups) + len(hgroups) + len(sgroups),
             "notes": {"whole_file_reader_model_vs_crate(compressed files under chunk plans)": wf["notes"]},
             "rule": "(schema, bytes) with bytes = valid encodings (random block layouts), valid + trailing data, and mutations (flipped continuation "
                     "bits, truncations, runs of 0x80/0xFF making over-long varints) x targets (dynamic, typed, ignored, random hints) x limits; "
                     "decoded from the slice and from readers with EVERY chunk size 1..min(len,24) plus irregular plans: same value (borrows "
                     "erased) and same number of bytes left, or an error everywhere; container files (12 codec settings; complete, truncated, "
-                    "damaged) from slice vs 9 chunkings; model vs crate on a sample",
+                    "damaged) from slice vs 9 chunkings; hand-written null-codec files whose blocks differ in byte size (a block of 0..3 bytes "
+                    "before / between blocks holding strings, bytes, fixed values of up to 130 bytes; files of zero-byte datums) from slice vs "
+                    "refill sizes 1,2,3,5,7,16,64,8192 and a random plan, and against the container reader model; single-object messages (header "
+                    "by the model's encoder; incl. zero-byte datums: the message is exactly its header) complete, followed by data, cut at 0,1,2,9,10 "
+                    "and a random length, one header bit flipped: slice vs refill sizes 1..13 and plans, and against the model; "
+                    "model vs crate on a sample",
             "samples": samples, "violations": violations, "model_diffs": diffs}
